@@ -39,7 +39,7 @@ def sees_no_simulation():
     return False
 
 
-def one_run(E, k, kind, real=False):
+def one_run(E, k, kind, real=False, bystanders=False):
     """perform run number k of the given kind; all obligations inside"""
     start = E.num('start%d' % k, -10, 10, real=real)
     d = [E.num('d%d_%d' % (k, i), 0, 20, real=real) for i in range(2)]
@@ -48,6 +48,9 @@ def one_run(E, k, kind, real=False):
     ret = E.int('ret%d' % k, -3, 3) if kind == RETURNS else None
     inner_start = E.num('istart%d' % k, -10, 10, real=real) if kind == NESTED else None
     inner_d = E.num('id%d' % k, 0, 20, real=real) if kind == NESTED else None
+    # a third root that is still suspended when the run ends (by a failure or at quiescence)
+    # and whose clean-up would need the simulation: nobody may run it as part of run()
+    bykind = E.pick('by%d' % k, 3) if bystanders and kind in (RAISES, WAITERS, SUCCESS) else 0
 
     async def inner():
         log('in', 'start')
@@ -78,8 +81,26 @@ def one_run(E, k, kind, real=False):
         await (time + 1)
         log(1, 'end')
 
+    async def forever():
+        await eternity
+
+    async def root2():
+        if bykind == 1:
+            try:
+                await eternity
+            finally:
+                time.now
+        else:
+            async with Scope() as scope:
+                scope.do(forever())
+                scope.do(forever(), volatile=True)
+                await eternity
+
     E.prove(sees_no_simulation(), 'no-simulation-visible-before-run')
     probe = Probe()
+    extra = (root2(),) if bykind else ()
+    if bykind:
+        E.reach('suspended-bystander')
     if kind == TILL:
         # run(till=T), T >= start: ends when till is reached, nothing runs later than T
         T = start + E.num('dT%d' % k, 0, 25, real=real)
@@ -95,7 +116,7 @@ def one_run(E, k, kind, real=False):
         if GT(T, start + d[1] + 1):
             E.prove(log.has(1, 'end'), 'every-activity-ran-to-its-end')
         return
-    out = simulate(root0(), root1(), start=start, log=log, probe=probe)
+    out = simulate(root0(), root1(), *extra, start=start, log=log, probe=probe)
     E.prove(sees_no_simulation(), 'no-simulation-visible-after-run',
             ('after a run of kind %d that ended with %r', kind, out.exc))
     # roots start at `start` in argument order
@@ -137,10 +158,10 @@ def one_run(E, k, kind, real=False):
             E.reach('quiescent-with-waiters')
 
 
-def fam_sequence(E, nruns, kinds, real=False):
+def fam_sequence(E, nruns, kinds, real=False, bystanders=False):
     for k in range(nruns):
         kind = kinds[E.pick('kind%d' % k, len(kinds))]
-        one_run(E, k, kind, real=real)
+        one_run(E, k, kind, real=real, bystanders=bystanders)
 
 
 class Baton:
@@ -394,6 +415,12 @@ FAMILIES = [
            thorough=dict(nruns=2, kinds=[SUCCESS, RAISES, RETURNS, NESTED, WAITERS, TILL]),
            reach=['raises', 'returns-value', 'nested', 'quiescent-with-waiters', 'till'],
            bounds='2 (thorough 3) runs in sequence'),
+    Family('bystanders', fam_sequence,
+           quick=dict(nruns=2, kinds=[SUCCESS, RAISES, WAITERS], bystanders=True),
+           reach=['raises', 'quiescent-with-waiters', 'suspended-bystander'],
+           bounds='2 runs in sequence; a further root activity is still suspended when the run '
+                  'ends (failure of another root / quiescence): inside try/finally code that '
+                  'uses the simulation, or inside a scope with a regular and a volatile child'),
     Family('sequence3', fam_sequence,
            thorough=dict(nruns=3, kinds=[SUCCESS, RAISES, NESTED, TILL], _max_paths=900000,
                          _max_wall=1200),
